@@ -12,6 +12,8 @@
                 validation/directive.rs  FindRecursiveDirective            (two RecursionStacks, limit 32)
                 validation/input_object.rs FindRecursiveInputValue         (RecursionStack, limit 32)
                 validation/selection.rs  FieldsInSetCanMerge               (LimitTracker, FIELD_DEPTH_LIMIT 128)
+                validation/selection.rs, field.rs, fragment.rs
+                                         validate_selection_set and its callees (DepthCounter, limit 500)
 
    Every traversal is a function of an ARBITRARY definition graph (a look-up function name -> body, so
    cyclic and infinite graphs are included).  A Rust activation (one call of the recursive function) is one
@@ -93,10 +95,15 @@ Definition gd_pop (s : gd_stack) : gd_stack :=
 (* ------------------------------------------------------------------ fragment.rs: detect_fragment_cycles
 
    `look n` is `document.fragments.get(n)` as (fragment.name, the names of all fragment spreads in its
-   selection set in document order).  The code recurses natively through fields and inline fragments
-   passing the same guard and the same `seen` set and propagating every error, so only the sequence of
-   spreads matters to the result; gd_spreads below is that sequence.  (The native recursion through
-   fields/inline fragments is bounded by the nesting depth of the syntax, i.e. by the parser's limit.) *)
+   selection set in document order).  The code loops over `nested_fragment_spreads(selection_set)`, an
+   iterator that yields the spreads nested anywhere in fields and inline fragments in document order using
+   an explicit stack on the heap; gd_spreads below is that sequence (gd_spread_iter is the iterator itself,
+   Valid/SpreadIter.v proves that it yields gd_spreads).  The function calls itself only to follow a spread,
+   after `push`: one unit of fuel is one native activation, so the bound limit + 1 on the fuel IS the bound
+   on the native depth.  (Before its repair the function also called itself for every field and inline
+   fragment with the same guard and `seen` set, propagating every error: the same sequence of spreads and
+   the same results, but a native depth of (fragments on the path) x (nesting of each definition) — former
+   finding fragment_cycles_recursion_unguarded.) *)
 
 Fixpoint gd_spreads_sel (s : selection) : list str :=
   match s with
@@ -107,6 +114,22 @@ Fixpoint gd_spreads_sel (s : selection) : list str :=
                            match l with [] => [] | x :: r => gd_spreads_sel x ++ go r end) sels
   end.
 Definition gd_spreads (sels : list selection) : list str := flat_map gd_spreads_sel sels.
+
+(* nested_fragment_spreads, collected: `stack` is the Vec of slice iterators, its last element first; one unit
+   of fuel is one turn of the `while let` loop *)
+Fixpoint gd_spread_iter (fuel : nat) (stack : list (list selection)) : option (list str) :=
+  match fuel with
+  | O => None
+  | S f =>
+    match stack with
+    | [] => Some []                                             (* stack.last_mut() is None: the iterator ends *)
+    | [] :: st => gd_spread_iter f st                           (* selections.next() is None: stack.pop() *)
+    | (SSpread n _ :: r) :: st =>                               (* return Some(spread); the next call resumes here *)
+      match gd_spread_iter f (r :: st) with Some l => Some (n :: l) | None => None end
+    | (SInline _ _ sub :: r) :: st => gd_spread_iter f (sub :: r :: st)
+    | (SField _ _ _ _ sub :: r) :: st => gd_spread_iter f (sub :: r :: st)
+    end
+  end.
 
 Definition gd_frag_limit : N := 100.
 
@@ -304,6 +327,132 @@ Definition gd_walk_top_with (limit : N) (fuel : nat) (frags : str -> option (lis
   (m : gd_mode) (sels : list selection) : gd_wres :=
   gd_walk fuel frags m sels (gd_counter_with_limit gd_counter_new limit) [] 0.
 Definition gd_walk_top := gd_walk_top_with gd_walk_limit.
+
+(* ------------------------------------------------------------------ selection.rs / field.rs / fragment.rs:
+   validate_selection_set
+
+   validate_selection_set creates `DepthCounter::new().with_limit(500)`, runs validate_nested_selection_set
+   with `depth.guard()` and pushes one RecursionError if that returns Err(RecursionLimitError).
+   validate_nested_selection_set (by-value guard) loops over the selections and calls validate_field /
+   validate_inline_fragment / validate_fragment_spread with `&mut guard`; each of them calls back with
+   `guard.increment()?` where it descends: validate_field and validate_inline_fragment around their call of
+   validate_nested_selection_set, validate_fragment_spread around validate_fragment_definition (which takes
+   the new guard by value, hands it on to validate_nested_selection_set if it descends and drops it otherwise).
+   Every `?` propagates.  One unit of fuel is one activation of validate_nested_selection_set; between two
+   nested activations of it there are at most two other frames (validate_field | validate_inline_fragment |
+   validate_fragment_spread + validate_fragment_definition), none of which recurses otherwise.
+
+   What decides whether the walk descends is modelled in full; the checks that only push diagnostics
+   (directives, arguments, values, validate_fragment_spread_type) are left out.  The schema enters through
+     vst_schema      context.schema().is_some()
+     vst_root        schema.root_operation(operation_type)
+     vst_field t f   schema.type_field(t, f).ok().map(|d| d.ty.inner_named_type())
+     vst_composite t schema.types.get(t) is an object, interface or union type
+   `frags n` is document.fragments.get(n) as (type condition, selections); `cycles_ok n` says that
+   validate_fragment_cycles pushed no diagnostic for fragment n; `validated` is context.validated_fragments.
+   The count is the number of UndefinedFragment diagnostics pushed (they stay in the list whatever the
+   result of the walk). *)
+
+Record vs_typing := mk_vst {
+  vst_schema : bool;
+  vst_root : optype -> option str;
+  vst_field : str -> str -> option str;
+  vst_composite : str -> bool }.
+
+Definition vs_sel_limit : N := 500.
+
+Definition vs_is_empty (sub : list selection) : bool := match sub with [] => true | _ => false end.
+
+Section SelWalk.
+  Variable frags : str -> option (str * list selection).
+  Variable cycles_ok : str -> bool.
+  Variable ty : vs_typing.
+  Variable rec : option str -> list selection -> gd_counter -> list str -> N -> gd_wres.
+
+  (* validate_fragment_definition(.., guard): type condition, cycles, then the selection set against the
+     type condition (`schema.types.contains_key` holds of a composite type) *)
+  Definition vs_fragment_definition (n cond : str) (body : list selection) (c : gd_counter)
+    (validated : list str) (acc : N) : gd_wres :=
+    let has_type_error := vst_schema ty && negb (vst_composite ty cond) in
+    let has_cycles := negb (cycles_ok n) in
+    if negb has_type_error && negb has_cycles then
+      rec (if vst_schema ty then Some cond else None) body c validated acc
+    else (acc, GrOk (gd_guard_drop c, validated)).
+
+  Fixpoint vs_loop (against : option str) (sels : list selection) (c : gd_counter) (validated : list str)
+    (acc : N) {struct sels} : gd_wres :=
+    match sels with
+    | [] => (acc, GrOk (c, validated))
+    | s :: rest =>
+      match s with
+      | SField _ name _ _ sub =>                                              (* validate_field *)
+        match against with
+        | None =>
+          match gd_walk_call (rec None) sub c validated acc with
+          | (acc', GrOk (c', v')) => vs_loop against rest c' v' acc'
+          | r => r
+          end
+        | Some t =>
+          match vst_field ty t name with
+          | Some fty =>
+            (* validate_leaf_field_selection *)
+            if vs_is_empty sub && vst_composite ty fty then vs_loop against rest c validated acc
+            else
+              match gd_walk_call (rec (Some fty)) sub c validated acc with
+              | (acc', GrOk (c', v')) => vs_loop against rest c' v' acc'
+              | r => r
+              end
+          | None => vs_loop against rest c validated acc
+          end
+        end
+      | SInline cond _ sub =>                                                 (* validate_inline_fragment *)
+        let has_type_error :=
+          vst_schema ty && match cond with Some t => negb (vst_composite ty t) | None => false end in
+        if has_type_error then vs_loop against rest c validated acc
+        else
+          let against' := if vst_schema ty then match cond with Some t => Some t | None => against end
+                          else against in
+          match gd_walk_call (rec against') sub c validated acc with
+          | (acc', GrOk (c', v')) => vs_loop against rest c' v' acc'
+          | r => r
+          end
+      | SSpread n _ =>                                                        (* validate_fragment_spread *)
+        match frags n with
+        | Some (cond, body) =>
+          if gd_mem n validated then vs_loop against rest c validated acc     (* !validated_fragments.insert(..) *)
+          else
+            match gd_walk_call (vs_fragment_definition n cond) body c (n :: validated) acc with
+            | (acc', GrOk (c', v')) => vs_loop against rest c' v' acc'
+            | r => r
+            end
+        | None => vs_loop against rest c validated (acc + 1)                  (* UndefinedFragment *)
+        end
+      end
+    end.
+
+  (* one activation of validate_nested_selection_set: the loop, then the by-value `guard` is dropped *)
+  Definition vs_body (against : option str) (sels : list selection) (c : gd_counter) (validated : list str)
+    (acc : N) : gd_wres :=
+    match vs_loop against sels c validated acc with
+    | (acc', GrOk (c', v')) => (acc', GrOk (gd_guard_drop c', v'))
+    | r => r
+    end.
+End SelWalk.
+
+Fixpoint vs_walk (fuel : nat) (frags : str -> option (str * list selection)) (cycles_ok : str -> bool)
+  (ty : vs_typing) (against : option str) (sels : list selection) (c : gd_counter) (validated : list str)
+  (acc : N) : gd_wres :=
+  match fuel with
+  | O => (acc, GrFuel)
+  | S f => vs_body frags cycles_ok ty (vs_walk f frags cycles_ok ty) against sels c validated acc
+  end.
+
+(* validate_selection_set up to its `if walked.is_err() { push RecursionError }`:
+   `DepthCounter::new().with_limit(500)`, `depth.guard()`, a fresh OperationValidationContext *)
+Definition vs_top_with (limit : N) (fuel : nat) (frags : str -> option (str * list selection))
+  (cycles_ok : str -> bool) (ty : vs_typing) (against : option str) (sels : list selection) : gd_wres :=
+  vs_walk fuel frags cycles_ok ty against sels (gd_counter_with_limit gd_counter_new limit) [] 0.
+Definition vs_top := vs_top_with vs_sel_limit.
 
 (* ------------------------------------------------------------------ directive.rs: FindRecursiveDirective
 
@@ -641,32 +790,64 @@ Definition gd_optype_eqb (a b : optype) : bool :=
 Definition gd_doc_walk (m : gd_mode) (fr : gd_frag_table) (sels : list selection) : gd_wres :=
   gd_walk_top (gd_fuel_of gd_walk_limit) (gd_table_sels fr) m sels.
 
+(* document.fragments with the type conditions: the first definition of a name wins *)
+Fixpoint vs_doc_frags (d : document) : list (str * (str * list selection)) :=
+  match d with
+  | [] => []
+  | DFragment n cond _ sels :: r =>
+    (n, (cond, sels)) :: filter (fun e => negb (streq (fst e) n)) (vs_doc_frags r)
+  | _ :: r => vs_doc_frags r
+  end.
+
+(* validate_fragment_cycles(def) pushed nothing: neither RecursiveFragmentDefinition nor DeeplyNestedType *)
+Definition vs_cycles_ok (tbl : list (str * (str * list str))) (n : str) : bool :=
+  match gd_lookup n tbl with
+  | Some (_, spreads) =>
+    match gd_verdict_of (gd_frag_check (gd_fuel_of gd_frag_limit) (gd_table_look tbl) n spreads) with
+    | GvOk => true
+    | _ => false
+    end
+  | None => false
+  end.
+
+(* validate_operation: validate_selection_set of the operation against its root type *)
+Definition vs_doc_walk (ty : vs_typing) (doc : document) (op : optype * list selection) : gd_wres :=
+  let fr := vs_doc_frags doc in
+  let tbl := gd_spread_table (gd_doc_frags doc) in
+  vs_top (gd_fuel_of vs_sel_limit) (fun n => gd_lookup n fr) (vs_cycles_ok tbl) ty
+         (if vst_schema ty then vst_root ty (fst op) else None) (snd op).
+
 (* What the guarded walks of executable validation leave in the diagnostics of a document, in the order
    executable/validation.rs runs them:
-   - validate_operation_definitions: validate_unused_variables pushes one RecursionError for every operation
-     whose deduplicating walk fails;
+   - validate_operation_definitions, for every operation: validate_unused_variables pushes one RecursionError
+     if its deduplicating walk fails, then validate_selection_set pushes one RecursionError if its walk fails
+     (and UndefinedFragment for every spread of an undefined fragment it visits);
    - validate_fragments_used pushes one RecursionLimitError without location when collect_used_fragments
      fails (the `?` stops at the first failing operation);
    - validate_defer: validate_defer_labels runs walk_defers_in_selection_set over every operation and every
      fragment definition, forbid_defer_on_root runs for mutations and subscriptions,
      forbid_unconditional_defer for subscriptions; their diagnostics stay whatever the result of the walk;
      if some walk ended with the limit error (`limit_reached`) and the list holds no RecursionError /
-     RecursionLimitError yet (`!diagnostics.has_recursion_error()`: only the two walks above can have pushed
+     RecursionLimitError yet (`!diagnostics.has_recursion_error()`: only the walks above can have pushed
      one into a list that had none when validation started), one RecursionError is pushed;
    - validate_with_schema: validate_subscription pushes one RecursionError for every subscription whose
      walk_selections fails.
-   `swallow = true` is validate_defer as it was before the repair: the results of its walks were
+   `swallow = true` is validate_defer as it was before its repair: the results of its walks were
    discarded (`let _ =`) and it never pushed a RecursionError. *)
 Record gd_walk_obs := mk_gwo {
   gwo_recursion : N; gwo_used_limit : N; gwo_defer_root : N; gwo_uncond : N;
-  gwo_defer_truncated : bool    (* `limit_reached`: some @defer walk ended with the limit error *) }.
+  gwo_defer_truncated : bool;   (* `limit_reached`: some @defer walk ended with the limit error *)
+  gwo_sel_limit : N;            (* operations whose validate_selection_set ended with the limit error *)
+  gwo_undefined : N             (* UndefinedFragment diagnostics *) }.
 
 Definition gd_b2n (b : bool) : N := if b then 1 else 0.
 
-Definition gd_doc_walk_obs_with (swallow : bool) (doc : document) : gd_walk_obs :=
+Definition gd_doc_walk_obs_with (swallow : bool) (ty : vs_typing) (doc : document) : gd_walk_obs :=
   let d := gd_doc_frags doc in
   let ops := gd_doc_ops doc in
   let dedup_limit := map (fun o => gd_is_limit (snd (gd_doc_walk gd_mode_dedup d (snd o)))) ops in
+  let sel := map (vs_doc_walk ty doc) ops in
+  let sel_limit := map (fun r => gd_is_limit (snd r)) sel in
   let sub_limit := map (fun o => gd_optype_eqb (fst o) OpSubscription
                                  && gd_is_limit (snd (gd_doc_walk gd_mode_walk_selections d (snd o)))) ops in
   let limit_reached :=
@@ -677,22 +858,81 @@ Definition gd_doc_walk_obs_with (swallow : bool) (doc : document) : gd_walk_obs 
                          || (gd_optype_eqb (fst o) OpSubscription
                              && gd_is_limit (snd (gd_doc_walk gd_mode_uncond_defer d (snd o))))) ops in
   (* has_recursion_error() when validate_defer asks: a RecursionError of validate_unused_variables (and then
-     also the RecursionLimitError of validate_fragments_used, which runs the same walk) *)
-  let reported_before := existsb (fun b => b) dedup_limit in
+     also the RecursionLimitError of validate_fragments_used, which runs the same walk) or of
+     validate_selection_set *)
+  let reported_before := existsb (fun b => b) dedup_limit || existsb (fun b => b) sel_limit in
   mk_gwo
     (fold_right N.add 0 (map gd_b2n dedup_limit)
+     + fold_right N.add 0 (map gd_b2n sel_limit)
      + gd_b2n (negb swallow && limit_reached && negb reported_before)
      + fold_right N.add 0 (map gd_b2n sub_limit))
-    (gd_b2n reported_before)
+    (gd_b2n (existsb (fun b => b) dedup_limit))
     (fold_right N.add 0 (map (fun o => if gd_optype_eqb (fst o) OpQuery then 0
                                        else fst (gd_doc_walk gd_mode_defer_root d (snd o))) ops))
     (fold_right N.add 0 (map (fun o => if gd_optype_eqb (fst o) OpSubscription
                                        then fst (gd_doc_walk gd_mode_uncond_defer d (snd o)) else 0) ops))
-    limit_reached.
+    limit_reached
+    (fold_right N.add 0 (map gd_b2n sel_limit))
+    (fold_right N.add 0 (map fst sel)).
 
-Definition gd_doc_walk_obs : document -> gd_walk_obs := gd_doc_walk_obs_with false.
-(* before the repair (kept for the refuted witness of the former finding defer_walk_limit_swallowed) *)
-Definition gd_doc_walk_obs_old : document -> gd_walk_obs := gd_doc_walk_obs_with true.
+Definition gd_doc_walk_obs : vs_typing -> document -> gd_walk_obs := gd_doc_walk_obs_with false.
+(* validate_defer before its repair (kept for the refuted witness of the former finding defer_walk_limit_swallowed) *)
+Definition gd_doc_walk_obs_old : vs_typing -> document -> gd_walk_obs := gd_doc_walk_obs_with true.
+
+(* the typing functions of a built schema *)
+Definition vs_s_typename : str := [95;95;116;121;112;101;110;97;109;101].     (* __typename *)
+Definition vs_s_schema : str := [95;95;115;99;104;101;109;97].                 (* __schema *)
+Definition vs_s_type : str := [95;95;116;121;112;101].                          (* __type *)
+Definition vs_s_String : str := [83;116;114;105;110;103].
+Definition vs_s_Schema : str := [95;95;83;99;104;101;109;97].                   (* __Schema *)
+Definition vs_s_Type : str := [95;95;84;121;112;101].                            (* __Type *)
+
+Definition vs_schema_composite (s : schema) (t : str) : bool :=
+  match sch_get_type s t with
+  | Some (EObject _ _ _ _ _ _) | Some (EInterface _ _ _ _ _ _) | Some (EUnion _ _ _ _ _) => true
+  | _ => false
+  end.
+
+Definition vs_schema_root (s : schema) (op : optype) : option str :=
+  let r := match op with
+           | OpQuery => sd_query (sch_def s)
+           | OpMutation => sd_mutation (sch_def s)
+           | OpSubscription => sd_subscription (sch_def s)
+           end in
+  match r with Some c => Some (c_val c) | None => None end.
+
+Fixpoint vs_find_field (f : str) (fs : list (comp fielddef)) : option str :=
+  match fs with
+  | [] => None
+  | c :: r => if streq f (fd_name (c_val c)) then Some (inner_named_type (fd_ty (c_val c))) else vs_find_field f r
+  end.
+
+(* Schema::type_field: explicit fields of objects and interfaces, then the meta fields *)
+Definition vs_schema_field (s : schema) (t f : str) : option str :=
+  match sch_get_type s t with
+  | None => None
+  | Some et =>
+    let explicit := match et with
+                    | EObject _ _ _ _ fs _ | EInterface _ _ _ _ fs _ => vs_find_field f fs
+                    | _ => None
+                    end in
+    match explicit with
+    | Some r => Some r
+    | None =>
+      if streq f vs_s_typename && vs_schema_composite s t then Some vs_s_String
+      else if match vs_schema_root s OpQuery with Some q => streq q t | None => false end then
+        if streq f vs_s_schema then Some vs_s_Schema
+        else if streq f vs_s_type then Some vs_s_Type
+        else None
+      else None
+    end
+  end.
+
+Definition vs_typing_of_schema (s : schema) : vs_typing :=
+  mk_vst true (vs_schema_root s) (vs_schema_field s) (vs_schema_composite s).
+
+(* validate_standalone_executable: no schema *)
+Definition vs_no_schema : vs_typing := mk_vst false (fun _ => None) (fun _ _ => None) (fun _ => false).
 
 (* FindRecursiveInputValue::check for every input object, FindRecursiveDirective::check for every
    directive definition, in schema order *)
